@@ -51,6 +51,8 @@ func Run(r *core.Run) {
 		job{scen.EcSigning("near-q", 3, 1, []int{0, 1, 2}, msg, 0, r.Seed), "dev", devs},
 		job{scen.EcResharing(2, 1, []int{0, 1}, 2, 1, r.Seed, false), "dev", devs},
 		job{scen.EcKeygen("small", 2, 1, r.Seed), "dev", devs},
+		// more old members than new ones (the two committees' index ranges differ)
+		job{scen.EcResharing(3, 1, []int{0, 1, 2}, 2, 1, r.Seed, true), "dev", 0},
 	)
 	if r.Tier == "thorough" {
 		jobs = append(jobs, job{scen.EcKeygen("small", 3, 1, r.Seed), "dev", 0}, job{scen.EcResharing(3, 1, []int{0, 1, 2}, 3, 1, r.Seed, true), "dev", 0})
